@@ -6,7 +6,9 @@ spec: SessionTrace (rest state <<0,1,0,0>> of the four stacks; empty evaluation 
 bind: (a) sequences of evaluations over a catalogue of ~85 forms of the full surface language on one
       long-lived real interpreter, depths read through the verif accessor; every form 200x (growth);
       (b) the listing of every function/chunk the real compiler produced for the catalogue, for generated
-      core-language programs and for the C09 tail shapes is the input of Bytecode.tla.
+      core-language programs and for the C09 tail shapes is the input of Bytecode.tla;
+      (c) the stack effect of every VM instruction executed (step tracer) against VMEffects.tla, the table
+      Bytecode.tla executes with (EffectTrace.tla).
 """
 import json, os, re
 import vlib, flow
@@ -49,9 +51,24 @@ def bytecode(out, zv):
     return n
 
 
+def effects(out, zv):
+    """Bind the instruction table of Bytecode.tla (VMEffects) to the real VM."""
+    tr = os.path.join(vlib.scratch(), "vmfx.ndjson")
+    vlib.run_zv(zv, "vmfx", [], tr)
+    cases, v = flow.validate(out, "vmfx", "EffectTrace.tla", "EffectTrace.cfg", tr, zv)
+    ops = sorted(set(c["op"] for c in cases.values()))
+    judged = sorted(set(c["op"] for i, c in cases.items() if v[i][0] != "skip"))
+    out.extra["vm_instruction_kinds_observed"] = ops
+    out.extra["vm_instruction_kinds_judged"] = judged
+    out.extra["vm_effect_signatures"] = len(set((c["op"], c["n"], c["next"], c["before"], c["dd"], c["ds"]) for c in cases.values()))
+    out.extra["vm_steps_paired"] = sum(c["count"] for c in cases.values())
+    return len(cases)
+
+
 def run():
     out = flow.Outcome(PROP)
     zv = vlib.build_zv()
+    effects(out, zv)
     trace = os.path.join(vlib.scratch(), "session.ndjson")
     vlib.run_zv(zv, "session", ["-mode", "seq"], trace)
     cases, v = flow.validate(out, "session", "SessionTrace.tla", "SessionTrace.cfg", trace, zv, replay_args=["-mode", "seq"])
@@ -69,7 +86,9 @@ def run():
     return flow.finish(out, "model_checking", cov, [
         "depths are read through the verif accessor VerifDepths; growth is judged on the four stacks, not on the instruction memory of __main",
         "forms that fail are not judged here (C05); struct names are made unique per case because the registry is process-global",
-        "Bytecode.tla's pop/push effect table per instruction kind is hand-written from vm.go; an unknown kind is not judged",
+        "Bytecode.tla's effect table per instruction kind (VMEffects.tla) is written from vm.go and bound to the VM by EffectTrace: "
+        "every (kind, operand count, depth change) signature the tracer observed while the catalogue, generated programs and the script corpus ran must be the table's; "
+        "instruction kinds never executed in those runs are assumed; an unknown kind is not judged",
     ])
 
 
